@@ -125,13 +125,49 @@ def obligation(oid, title, harnesses, functions, bounds, jobs=8, timeout=1500, e
 
 
 def save_failure(oid, h, log):
+    """counterexample of a FAILED harness: CBMC's verdict block, the concrete-playback unit test Kani derives from the
+    solver's assignment, and the outcome of running that test natively against the real crates (dev profile)"""
     d = os.path.join(VERIF, 'replays', 'out', 'kani')
     os.makedirs(d, exist_ok=True)
     p = os.path.join(d, f'{h}.log')
     try:
         out = open(log).read()
         m = re.search(r'Checking harness [\w:]*' + re.escape(h) + r'\.\.\.(.*?)(?=(?:Thread \d+: )?Checking harness|\Z)', out, re.S)
-        open(p, 'w').write(f'replay: cd /verif/kani/direct && cargo kani -Z stubbing --harness {h} -Z concrete-playback --concrete-playback=print\n' + (m.group(1) if m else out[-5000:]))
+        txt = f'replay: cd /verif/kani/direct && cargo kani -Z stubbing --harness {h} -Z concrete-playback --concrete-playback=print\n' + (m.group(1) if m else out[-5000:])
+        if os.environ.get('VERIF_KANI_PLAYBACK', '1') != '0':
+            txt += '\n\n==== concrete playback ====\n' + playback(h)
+        open(p, 'w').write(txt)
     except Exception as e:
         open(p, 'w').write(str(e))
     return p
+
+
+def playback(h, timeout=900):
+    """Kani concrete playback: print the unit test built from the solver's values, then run it natively in a scratch copy of the harness crate"""
+    tdir = os.path.join(WORK, 'kani', 't0')
+    cmd = f'ulimit -v 45000000; exec cargo kani --target-dir {tdir} -Z stubbing -Z concrete-playback --concrete-playback=print --harness {h} --output-format terse'
+    rc, out, dt = sh(cmd, cwd=CRATE, timeout=timeout)
+    m = re.search(r'```\s*\n(.*?)```', out, re.S)
+    if not m:
+        return 'Kani printed no concrete playback test (rc=%s):\n%s' % (rc, out[-1500:])
+    test = m.group(1)
+    res = 'unit test generated by Kani from the counterexample:\n' + test
+    name = re.search(r'fn (kani_concrete_playback_\w+)', test)
+    f, _ = harness_source(h)
+    if not name or not f:
+        return res + '\n(native run skipped: cannot locate the harness source)'
+    import tempfile
+    scratch = tempfile.mkdtemp(prefix='kani-playback-')
+    try:
+        shutil.copytree(CRATE, os.path.join(scratch, 'c'), ignore=shutil.ignore_patterns('target'))
+        src = os.path.join(scratch, 'c', 'src', f)
+        body = open(src).read()
+        open(src, 'w').write(body + '\n' + test + '\n')
+        rc, out, dt = sh(f'cargo kani playback -Z concrete-playback -- {name.group(1)}', cwd=os.path.join(scratch, 'c'), timeout=timeout,
+                         env={'CARGO_TARGET_DIR': os.path.join(WORK, 'kani', 'playback')})
+        verdict = 'REPRODUCED natively (the playback test fails as the harness predicts)' if re.search(r'test result: FAILED|panicked at', out) else \
+                  ('NOT reproduced natively (playback test passes)' if 'test result: ok' in out else f'native run inconclusive (rc={rc})')
+        res += f'\nnative run of {name.group(1)} (dev profile, {dt:.0f}s): {verdict}\n' + '\n'.join(out.splitlines()[-15:])
+    finally:
+        shutil.rmtree(scratch, ignore_errors=True)
+    return res
